@@ -331,6 +331,7 @@ def nocrash(r):
 
 class KProp(Prop):
     """in-process keyring properties: implementation = clidrv driver, model = Run/RunKeyring.v"""
+    run_modules = ("Run/RunLib.v", "Run/RunKeyring.v", "Run/RunCli.v")   # MODEL_IMPORT
     trusted_extra = ["harness/clidrv in-process driver (KESTREL_VERIF_DRIVER) and coq/Run/RunKeyring.v (observation rendering, UTF-8)"]
 
     def build(self, ctx):
@@ -414,6 +415,22 @@ def k_replay(ctx, payload):
             if k in ("op", "tags"):
                 continue
             a[k] = bytes.fromhex(v) if isinstance(v, str) else v
+        if d["op"] == "cli" and d.get("kvw"):
+            tree = {k: bytes.fromhex(v) for k, v in d["files"].items()}
+            tree.update({k: None for k in d.get("dirs", [])})
+            c = KvwCase(d["label"], d["argv"], tree, cwd=d.get("cwd", ""), pw=None if d["pw"] is None else bytes.fromhex(d["pw"]),
+                        npw=None if d["npw"] is None else bytes.fromhex(d["npw"]), keyring_env=d["keyring_env"], stdin=bytes.fromhex(d["stdin"]),
+                        rnd=bytes.fromhex(d["rnd"]))
+            root = tempfile.mkdtemp(prefix="kv_replay_", dir="/tmp")
+            try:
+                kvw_exec_cases([c], root)
+            finally:
+                shutil.rmtree(root, ignore_errors=True)
+            c.id = "1"
+            table = kdf_table_par(ctx.bin, [c])
+            vlib.run_model([c], table, ctx.pid + "r", extra_import=MODEL_IMPORT, prelude=cli_prelude())
+            return {"holds": bool(c.agree) and nocrash(c.result) is None, "implementation": c.result["raw"], "model_agrees": c.agree,
+                    "model": model_expect_case(ctx, c), "expected": payload.get("expected")}
         if d["op"] == "cli":
             c = CliCase(d["label"], d["argv"], {k: bytes.fromhex(v) for k, v in d["files"].items()},
                         pw=None if d["pw"] is None else bytes.fromhex(d["pw"]), npw=None if d["npw"] is None else bytes.fromhex(d["npw"]),
@@ -2389,11 +2406,14 @@ def pipe_delivery_checks(ctx, w=None):
                 ("encrypt", ["enc", "pt_huge", "-t", "bob", "-f", "alice", "--env-pass"], dict(env_pw(w.pw["alice"]), **kr), None, "pt_huge"),
                 ("password encrypt", ["password", "encrypt", "pt_huge", "--env-pass"], env_pw(w.passpw), None, "pt_huge")]
         jobs = []
+        # a private character device 1:7 inside the scratch directory, not the machine's /dev/full (vlib.private_special)
+        full_dev = vlib.private_special(w.dir, "full")
         for (name, argv, env, want, infile) in cmds:
             jobs.append((name, "stdout reader gone", argv, env, "closed", None, want))
             jobs.append((name, "stdin -> stdout, reader gone", [a for a in argv if a != infile], env, "closed", infile, want))
             jobs.append((name, "stdout drained", argv, env, "drain", None, want))
-            jobs.append((name, "-o /dev/full", argv + ["-o", "/dev/full"], env, "drain", None, want))
+            if full_dev:
+                jobs.append((name, "-o /dev/full", argv + ["-o", full_dev], env, "drain", None, want))
 
         def one(j):
             name, how, argv, env, mode, sin, want = j
@@ -2633,12 +2653,18 @@ class C12(ProcProp):
             "/dev/stdout and /proc/self/fd/1 on a pipe, FIFO with a reader, plain stdout pipe, stdout redirected to / appending to a file, "
             "-o /dev/stdout with stdout redirected to a file, symbolic link to an absent / existing file / to /dev/null, pseudo-terminal "
             "in raw mode}: exit status, stderr and the bytes that arrive are those of the run writing a new regular file; 13 of these "
-            "(quick) against the CLI model evaluated on the plain wiring; non-trivial = every run")
+            "(quick) against the CLI model evaluated on the plain wiring; tree cases against the CLI model's tree world (exit class, stdout, "
+            "the WHOLE resulting tree): every command x 16 shapes of an -o path that cannot be created (missing parent, a directory, '.', '..', "
+            "'/', trailing slash, a file used as a directory, the empty string, absolute and dotted spellings), 10 dotted / absolute / '..' "
+            "spellings of a path that can, processes started in sub-directories, dotted / absolute / unresolvable input and keyring paths, "
+            "directories as input (quick 51, thorough 214); non-trivial = every run")
     assumptions = ["the full wiring matrix is judged by direct oracles; the CLI model (Model/CliGlue.v::real_cli_main) is compared with the "
                    "real process on small worlds (150-byte plaintext, 4 wirings x 4 inputs, encrypt / password modes, help, version) and the "
                    "real argument parser with Model/CliParse.v on exhaustive short argument vectors",
                    "stderr is compared across wirings by its Error:/Success/Unknown-key lines; against the model by message CLASS",
-                   "the model covers one terminal configuration (no tty) and whole-file reads/writes that succeed"]
+                   "the model covers one terminal configuration (no tty); its file system is a tree of regular files and directories with "
+                   "component-wise path resolution (a failing File::create, directory handles whose reads fail, file identity by canonical "
+                   "path); links, devices, FIFOs, permissions and a full disk are judged by the direct oracles only"]
 
     def explore(self, ctx):
         rng = ctx.rng
@@ -2762,7 +2788,7 @@ class C12(ProcProp):
         ctx.search_note = "direct oracle over %d process runs" % ctx.evaluations
         # correspondence: the real parser vs Model/CliParse.v; the real process vs Model/CliGlue.v::real_cli_main
         parse_correspondence(ctx)
-        model_cli_part(ctx, lambda ctx, mw, root: c12_model_cases(ctx, mw) + c12_target_model_cases(ctx, mw))
+        model_cli_part(ctx, lambda ctx, mw, root: c12_model_cases(ctx, mw) + c12_target_model_cases(ctx, mw) + kvw_model_cases(ctx, mw, root, "c12"))
 
     def one(self, w, j):
         out = "out_%d" % j["i"]
@@ -2982,9 +3008,14 @@ class C12(ProcProp):
                 os.mkdir(os.path.join(d, "sub"))
                 oarg = rel("sub/out")
             elif kind == "dev-null":
-                oarg = "/dev/null"
+                # private copies of the special files (vlib.private_special): the program under test never gets /dev itself
+                oarg = vlib.private_special(d, "null")
+                if oarg is None:
+                    return {"skipped": True, "run": None}
             elif kind == "dev-stdout-pipe":
-                oarg = "/dev/stdout"
+                oarg = vlib.private_special(d, "stdout")
+                if oarg is None:
+                    return {"skipped": True, "run": None}
             elif kind == "proc-self-fd-1-pipe":
                 oarg = "/proc/self/fd/1"
             elif kind == "fifo-with-reader":
@@ -3001,14 +3032,19 @@ class C12(ProcProp):
                 so = open(os.path.join(d, "out"), "ab")
             elif kind == "dev-stdout-to-file":
                 so = open(os.path.join(d, "out"), "wb")
-                oarg = "/dev/stdout"
+                oarg = vlib.private_special(d, "stdout")
+                if oarg is None:
+                    return {"skipped": True, "run": None}
             elif kind in ("symlink-to-absent", "symlink-to-existing"):
                 if kind.endswith("existing"):
                     mk("target", SENTINEL * 2000)
                 os.symlink("target", os.path.join(d, "out"))
                 oarg = rel("out")
             elif kind == "symlink-to-dev-null":
-                os.symlink("/dev/null", os.path.join(d, "out"))
+                nul = vlib.private_special(d, "null")
+                if nul is None:
+                    return {"skipped": True, "run": None}
+                os.symlink(nul, os.path.join(d, "out"))
                 oarg = rel("out")
             elif kind == "pty-slave-raw":
                 try:
@@ -3184,10 +3220,18 @@ class C13(ProcProp):
             "directory; plain / sub-directory / absolute, absent and present; symbolic link to a file, dangling, chained, into a missing "
             "directory, as the parent; a directory, a FIFO, a file as the parent, a directory with trailing slash} (quick: 5 shapes per "
             "cause, thorough: all), later-chunk failures through links and sub-directories; 8 (quick) missing-parent runs against the CLI "
-            "model; non-trivial = every run")
+            "model; tree cases against the CLI model's tree world (exit class, stdout, the WHOLE resulting tree; quick 72, thorough 219): "
+            "every command x -o paths that cannot be created (alone, over a sentinel, together with an unset password / a missing input), "
+            "directories as input x {-o absent, sentinel, stdout, uncreatable, unset password} with the header the encryptors leave behind "
+            "compared byte for byte, one file under two names for all four commands (dotted / absolute spellings, trailing data, wrong "
+            "password, the keyring as -o, key generate, a two-chunk file written by an independent ChaCha20-Poly1305); non-trivial = every run")
     assumptions = ["all causes x wirings are judged by direct oracles; one run per failure-cause class x {absent, sentinel} is compared with the "
                    "CLI model (exit code, message class, stdout, content of the output path)",
-                   "later-chunk failures (files over 64 KiB) are not evaluated in the model: too large for vm_compute"]
+                   "later-chunk failures (files over 64 KiB) are not evaluated in the model: too large for vm_compute; a later-chunk failure "
+                   "on a two-chunk file with SMALL chunks (written by an independent encoder) is, in the one-file-two-names cases",
+                   "'the input is a directory' and 'input and output are one file under two strings' are not in the property's list of causes: "
+                   "their runs are compared with the model (which states exactly what is left behind) and counted (tree:directory-input-left-a-header, "
+                   "tree:alias-exit-0-input-replaced), not judged as violations"]
 
     def causes(self, w):
         """(command, cause, builder(out, cfg) -> (argv, env, stdin))"""
@@ -3465,7 +3509,7 @@ class C13(ProcProp):
             w.close()
         ctx.search_note = "direct oracle over %d process runs" % ctx.evaluations
         # one run per failure-cause class x {absent, sentinel} against the CLI model
-        model_cli_part(ctx, lambda ctx, mw, root: c13_model_cases(ctx, mw))
+        model_cli_part(ctx, lambda ctx, mw, root: c13_model_cases(ctx, mw) + kvw_model_cases(ctx, mw, root, "c13"))
 
     def one(self, w, j):
         o = "o_%d" % j["i"]
@@ -3986,6 +4030,322 @@ def no_stray(r):
     if r.get("stray"):
         return ("no file other than the named output is created", "new files %r" % r["stray"])
     return None
+
+
+# =========================================================================== the TREE world (kvw_*): directories, missing parents,
+# dotted / absolute spellings, one file under two names, directories as input.  Model = Run/RunCli.v::run_cli_tree over
+# Model/Cli.v's tree world; observation = exit code, message class, stdout and the WHOLE resulting tree.
+KVW_IO_ERR = __import__("re").compile(r"^[A-Za-z][A-Za-z ]* \(os error \d+\)$")
+
+
+def kvw_classify(argv, rc, out, err, help_txt, ver_txt):
+    """classify_run plus the two messages only a tree can provoke: key generate onto a directory (95) and the bare io::Error of
+    key generate's write_all when the file cannot be created (96)"""
+    code, text = classify_run(argv, rc, out, err, help_txt, ver_txt)
+    if code == 997:
+        t = err.decode("utf-8", "replace")
+        i = t.find("Error: ")
+        m = t[i + len("Error: "):].rstrip("\n") if i >= 0 else ""
+        if m.startswith("Could not open output file:"):
+            return 95, b""
+        if KVW_IO_ERR.match(m):
+            return 96, b""
+    return code, text
+
+
+def kvw_read_tree(d):
+    """every entry below d: relative path -> bytes (regular file) | None (directory) | ('other', kind)"""
+    out = {}
+    for rel, e in kvc_tree_snapshot(d).items():
+        if e[0] == "file":
+            with open(os.path.join(d, rel), "rb") as f:
+                out[rel] = f.read()
+        elif e[0] == "dir":
+            out[rel] = None
+        else:
+            out[rel] = ("other", e[0])
+    return out
+
+
+class KvwCase(CliCase):
+    """one run of the whole program in a TREE.  tree: path relative to the run directory -> bytes (regular file) | None
+    (directory); cwd: the sub-directory the process starts in ('' = the run directory R); '@R' inside an argument or
+    KESTREL_KEYRING stands for the absolute path of R.  R is <case dir>/r, so that '..' from R stays inside the case."""
+
+    def __init__(self, label, argv, tree, cwd="", pw=None, npw=None, keyring_env=None, stdin=b"", rnd=b"", tags=(), oracle=None):
+        CliCase.__init__(self, label, argv, {k: v for k, v in tree.items() if v is not None}, pw=pw, npw=npw, keyring_env=keyring_env,
+                         stdin=stdin, rnd=rnd, watch=(), tags=tags, oracle=oracle)
+        self.a["dirs"] = sorted(k for k, v in tree.items() if v is None)
+        self.a["cwd"] = cwd
+        self.a["kvw"] = True
+        self.a["rundir"] = None
+        self.a["watch"] = []
+
+    def rust_line(self):
+        return "%s cli %s" % (self.id, hashlib.sha256(repr(sorted((k, repr(v)) for k, v in self.a.items()
+                                                                 if k not in ("rundir", "watch", "after_paths"))).encode()).hexdigest())
+
+    def sub(self, s):
+        return None if s is None else s.replace("@R", self.a["rundir"] or "@R")
+
+    def env(self):
+        e = CliCase.env(self)
+        if "KESTREL_KEYRING" in e:
+            e["KESTREL_KEYRING"] = self.sub(e["KESTREL_KEYRING"])
+        return e
+
+    def parts(self, rel=""):
+        """canonical absolute path (list of components) of <run dir>/rel"""
+        p = [x for x in self.a["rundir"].split("/") if x]
+        return p + [x for x in rel.split("/") if x]
+
+    def model_term(self):
+        a = self.a
+        gb = vlib.g_bytes
+        gt = lambda s: g_text(s.encode("utf-8"))
+        gp = lambda comps: "[" + "; ".join(gt(c) for c in comps) + "]"
+        go = lambda h: "None" if h is None else "(Some %s)" % gb(bytes.fromhex(h))
+        R = self.parts()
+        nodes = [(R[:i], None) for i in range(1, len(R) + 1)]          # /tmp, ..., the case directory, r
+        nodes += [(self.parts(k), None) for k in a["dirs"]]
+        nodes += [(self.parts(k), bytes.fromhex(v)) for k, v in sorted(a["files"].items())]
+        nd = "; ".join("(%s, %s)" % (gp(p), "nd" if c is None else "(nf %s)" % gb(c)) for p, c in nodes)
+        rnd = bytes.fromhex(a["rnd"])
+        r1 = rnd[:32] if len(rnd) >= 32 else bytes(32)
+        r2 = rnd[32:64] if len(rnd) >= 64 else bytes(32)
+        kr = self.sub(a["keyring_env"])
+        return "run_cli_tree T (mkw_tree [%s] %s %s %s %s %s) [%s] %s %s help_txt ver_txt [%s]" % (
+            nd, gp(self.parts(a["cwd"])), go(a["pw"]), go(a["npw"]), "None" if kr is None else "(Some %s)" % gt(kr),
+            gb(bytes.fromhex(a["stdin"])), "; ".join(gt(self.sub(x)) for x in ["kestrel"] + a["argv"]), gb(r1), gb(r2),
+            "; ".join(gp(p) for p in a["watch"]))
+
+    def describe(self):
+        a = self.a
+        return {"argv": ["kestrel"] + a["argv"], "cwd": a["cwd"] or ".", "env": CliCase.env(self), "dirs": a["dirs"],
+                "files": {k: v[:80] for k, v in a["files"].items()}, "stdin_hex": a["stdin"][:120],
+                "result": (self.result or {}).get("raw", "")[:400]}
+
+
+def kvw_exec_cases(cases, root):
+    """run every KvwCase as a real process; c.result = observation of RunCli.run_cli_tree: the whole tree of the case directory"""
+    help_txt, ver_txt = cli_texts()
+    os.makedirs(root, exist_ok=True)
+
+    def one(ic):
+        i, c = ic
+        d = os.path.join(root, "kvw%d_%s" % (i, hashlib.sha256(c.rust_line().encode()).hexdigest()[:8]))
+        R = os.path.join(d, "r")
+        os.makedirs(R)
+        c.a["rundir"] = R
+        for k in c.a["dirs"]:
+            os.makedirs(os.path.join(R, k), exist_ok=True)
+        for k, v in c.files().items():
+            os.makedirs(os.path.dirname(os.path.join(R, k)), exist_ok=True)
+            with open(os.path.join(R, k), "wb") as f:
+                f.write(v)
+        before = kvw_read_tree(d)
+        e = {"PATH": "/usr/bin:/bin", "HOME": d, "LANG": "C.UTF-8"}
+        e.update(c.env())
+        argv = [c.sub(x) for x in c.a["argv"]]
+        try:
+            pr = subprocess.run([vlib.CLIDRV] + argv, env=e, input=bytes.fromhex(c.a["stdin"]), stdout=subprocess.PIPE,
+                                stderr=subprocess.PIPE, start_new_session=True, timeout=120, cwd=os.path.join(R, c.a["cwd"]))
+            rc, out, err = pr.returncode, pr.stdout, pr.stderr
+        except subprocess.TimeoutExpired:
+            rc, out, err = 124, b"", b"[timeout]"
+        after = kvw_read_tree(d)
+        code, text = kvw_classify(c.a["argv"], rc, out, err, help_txt, ver_txt)
+        if rc < 0:
+            rc = 1000 - rc
+        D = [x for x in d.split("/") if x]
+        watch = sorted(set(tuple(D[:k]) for k in range(1, len(D) + 1)) | set(tuple(D + rel.split("/")) for rel in set(before) | set(after)))
+        c.a["watch"] = [list(p) for p in watch]
+        extra = (len(D) + len(after)).to_bytes(4, "big")
+        for p in watch:
+            if len(p) <= len(D):
+                extra += b"\x02"
+                continue
+            rel = "/".join(p[len(D):])
+            if rel not in after:
+                extra += b"\x00"
+            elif after[rel] is None:
+                extra += b"\x02"
+            elif isinstance(after[rel], tuple):
+                extra += b"\x03"
+            else:
+                extra += b"\x01" + len(after[rel]).to_bytes(4, "big") + after[rel]
+        diff = sorted(k for k in set(before) | set(after) if before.get(k, 0) != after.get(k, 0))
+        c.result = {"id": None, "code": code, "outcome": "exit%d:class%d" % (rc, code), "out": out, "consumed": rc, "trace": [],
+                    "extra": extra + text, "entries": None, "msg": "", "before": before, "after": after, "changed": diff, "stray": [],
+                    "raw": "exit=%d class=%d stdout=%s stderr=%r changed=%s" % (rc, code, out[:60].hex(), err.decode("utf-8", "replace")[-160:],
+                                                                             {k: (None if after.get(k) is None else len(after[k]) if isinstance(after.get(k), bytes) else after.get(k)) for k in diff})}
+        shutil.rmtree(d, ignore_errors=True)
+    with ThreadPoolExecutor(max_workers=NPROC) as ex:
+        list(ex.map(one, list(enumerate(cases))))
+
+
+def kvw_unchanged(why):
+    def f(r):
+        if r["consumed"] != 1:
+            return ("%s: the command fails with exit 1" % why, "exit %d" % r["consumed"])
+        if r["changed"]:
+            return ("%s: nothing is created, no directory either, and nothing present is altered" % why, "changed entries %r" % r["changed"])
+        return None
+    return f
+
+
+def kvw_only(rel, why, rc=0):
+    def f(r):
+        if r["consumed"] != rc:
+            return ("%s: exit %d" % (why, rc), "exit %d" % r["consumed"])
+        if r["changed"] != [rel]:
+            return ("%s: exactly r/%s is written, nothing else changes" % (why, rel[2:] if rel.startswith("r/") else rel), "changed entries %r" % r["changed"])
+        return None
+    return f
+
+
+def kvw_exit(rc, why):
+    def f(r):
+        if r["consumed"] != rc:
+            return ("%s: exit %d" % (why, rc), "exit %d" % r["consumed"])
+        return None
+    return f
+
+
+def kvw_two_chunk_pct(mw, c1, c2):
+    """a password-mode file with two SMALL chunks (the decryptor accepts any chunk length up to 64 KiB), written with the
+    independent RFC 8439 code of the C15 check; None without OpenSSL's scrypt"""
+    salt = mw.pct[4:36]
+    key = py_scrypt(mw.passpw, salt)
+    if key is None:
+        return None
+    magic = mw.pct[:4]
+    out = magic + salt
+    for n, (pt, last) in enumerate(((c1, 0), (c2, 1))):
+        flag, ln = last.to_bytes(4, "big"), len(pt).to_bytes(4, "big")
+        out += n.to_bytes(8, "big") + flag + ln + c15_aead_seal(key, bytes(4) + n.to_bytes(8, "little"), magic + flag + ln, pt)
+    return out
+
+
+def kvw_cases(ctx, mw, which):
+    """the tree cases of C12 ('c12': exit status over write failures, dotted spellings, directory inputs) and of C13 ('c13': what
+    the failing runs leave behind; aliases).  quick: a few dozen, thorough: the whole sweep."""
+    rng = ctx.rng
+    A, Bp = mw.pw["alice"], mw.pw["bob"]
+    base = {"pt": mw.plain, "ct": mw.ct, "pct": mw.pct, "kr": mw.kr["full"], "sub": None, "sub/deep": None, "sub/f": b"in the sub-directory\n"}
+    ops = {  # name -> (argv builder(infile, out) , password, random, reads a keyring)
+        "encrypt": (lambda i, o: ["encrypt"] + ([i] if i is not None else []) + ["-t", "bob", "-f", "alice", "-k", "kr", "--env-pass"] + ([] if o is None else ["-o", o]), A, "pt"),
+        "decrypt": (lambda i, o: ["decrypt"] + ([i] if i is not None else []) + ["-t", "bob", "-k", "kr", "--env-pass"] + ([] if o is None else ["-o", o]), Bp, "ct"),
+        "pass-encrypt": (lambda i, o: ["password", "encrypt"] + ([i] if i is not None else []) + ["--env-pass"] + ([] if o is None else ["--output", o]), mw.passpw, "pt"),
+        "pass-decrypt": (lambda i, o: ["pass", "dec"] + ([i] if i is not None else []) + ["--env-pass"] + ([] if o is None else ["-o=" + o]), mw.passpw, "pct"),
+    }
+    cases = []
+
+    def add(label, argv, tree=None, cwd="", pw=None, rnd=None, stdin=b"", kenv=None, tag="", oracle=None):
+        cases.append(KvwCase(label, argv, dict(base) if tree is None else tree, cwd=cwd, pw=pw, keyring_env=kenv, stdin=stdin,
+                             rnd=ctx.rbytes(64) if rnd is None else rnd, tags=["model:tree-" + tag], oracle=oracle))
+    pick = (lambda l, n: l) if ctx.thorough() else (lambda l, n: rng.sample(l, min(n, len(l))))
+    GEN = ["key", "generate", "--env-pass"]
+    bad_out = ["nodir/out", "", "sub", ".", "..", "/", "sub/", "pt/x", "pt/", "new/", "sub/../nodir/x", "/nodir_kvw/x", "@R/nodir/x", "sub/deep/../../nodir/x",
+               "./nodir/../out", "sub/f/../out"]
+    good_out = [("./out", "r/out"), ("sub/out", "r/sub/out"), ("sub/../out", "r/out"), ("./sub//deep/out", "r/sub/deep/out"), ("@R/out", "r/out"),
+                ("sub/deep/../../out", "r/out"), ("../r/out", "r/out"), ("sub/./f", "r/sub/f"), ("//" + "@R/sub/out", "r/sub/out"), ("../x", "x")]
+    if which == "c12":
+        # ---- exit 0 iff the operation completed, over -o paths that cannot be created (every command, every shape) ...
+        for name, (mk, pw, inp) in ops.items():
+            for o in pick(bad_out, 3):
+                add("%s, -o %r cannot be created" % (name, o), mk(inp, o), pw=pw, tag="bad-output", oracle=kvw_unchanged("the -o path cannot be created"))
+        for o in pick(bad_out, 4):
+            add("key generate, -o %r cannot be created" % o, GEN + ["-o", o], pw=b"gen pw", stdin=b"newkey\n", tag="bad-output",
+                oracle=kvw_unchanged("the -o path cannot be created"))
+        # ---- ... and over spellings of an -o path that CAN be created: the bytes land in the file the path denotes
+        for name, (mk, pw, inp) in ops.items():
+            for o, land in pick(good_out, 2):
+                add("%s, -o %r" % (name, o), mk(inp, o), pw=pw, tag="dotted-output", oracle=kvw_only(land, "the path denotes r/.. " + land))
+        for o, land in pick(good_out, 2):
+            add("key generate, -o %r" % o, GEN + ["-o", o], pw=b"gen pw", stdin=b"newkey\n", tag="dotted-output", oracle=kvw_only(land, "the path denotes " + land))
+        # ---- the process started in a sub-directory: relative paths are relative to IT
+        for name, (mk, pw, inp) in pick(list(ops.items()), 2):
+            add("%s from sub/, input ../%s, -o out" % (name, inp), [("../kr" if x == "kr" else x) for x in mk("../" + inp, "out")], cwd="sub", pw=pw, tag="cwd",
+                oracle=kvw_only("r/sub/out", "relative to the current directory"))
+            add("%s from sub/deep, -o ../../out2" % name, [("../../kr" if x == "kr" else x) for x in mk("../../" + inp, "../../out2")], cwd="sub/deep", pw=pw,
+                tag="cwd", oracle=kvw_only("r/out2", "relative to the current directory"))
+        # ---- spellings of the INPUT path and of the keyring path
+        for name, (mk, pw, inp) in pick(list(ops.items()), 2):
+            for i in pick(["./" + inp, "sub/../" + inp, "@R/" + inp, "sub/deep/../.././" + inp], 2):
+                add("%s, input spelled %r" % (name, i), mk(i, "out"), pw=pw, tag="dotted-input", oracle=kvw_only("r/out", "the input path denotes the file"))
+            for i in pick([inp + "/", inp + "/.", "sub/../nodir/../" + inp, "nodir/../" + inp, inp + "/../" + inp], 2):
+                add("%s, input %r does not resolve" % (name, i), mk(i, "out"), pw=pw, tag="missing-input", oracle=kvw_unchanged("the input path does not resolve"))
+        for k, ok in pick([("./sub/../kr", True), ("@R/kr", True), ("sub", False), ("kr/", False), ("nodir/kr", False), (".", False), ("sub/../kr/.", False)], 4):
+            argv = [(k if x == "kr" else x) for x in ops["decrypt"][0]("ct", "out")]
+            add("decrypt, keyring path %r" % k, argv, pw=Bp, tag="keyring-path",
+                oracle=kvw_only("r/out", "the keyring path denotes the keyring") if ok else kvw_unchanged("the keyring cannot be read"))
+        add("decrypt, KESTREL_KEYRING = absolute path", [x for x in ops["decrypt"][0]("ct", "out") if x not in ("-k", "kr")], pw=Bp, kenv="@R/sub/../kr",
+            tag="keyring-path", oracle=kvw_only("r/out", "the variable names the keyring"))
+        # ---- a directory as input never gives exit 0
+        for name, (mk, pw, inp) in ops.items():
+            for i in pick([".", "..", "/", "sub", "sub/", "./sub/.", "@R", "sub/deep/.."], 2):
+                add("%s, input %r is a directory" % (name, i), mk(i, "out"), pw=pw, tag="directory-input", oracle=kvw_exit(1, "a directory cannot be read"))
+        return cases
+    # ------------------------------------------------------------------ c13
+    SENT = dict(base, out=SENTINEL)
+    # every command x every kind of -o path that cannot be created, the rest of the invocation valid: nothing is created, no directory either
+    for name, (mk, pw, inp) in ops.items():
+        for o in pick(bad_out, 2):
+            add("%s, -o %r cannot be created" % (name, o), mk(inp, o), pw=pw, tag="bad-output", oracle=kvw_unchanged("the -o path cannot be created"))
+        add("%s, -o below a regular file that holds the sentinel" % name, mk(inp, "out/x"), tree=SENT, pw=pw, tag="bad-output",
+            oracle=kvw_unchanged("a regular file is not a directory"))
+    for o in pick(bad_out, 3):
+        add("key generate, -o %r cannot be created" % o, GEN + ["-o", o], pw=b"gen pw", stdin=b"newkey\n", tag="bad-output",
+            oracle=kvw_unchanged("the -o path cannot be created"))
+    # a failure cause of the property TOGETHER with such a path, and with dotted spellings of a path that could be created
+    for name, (mk, pw, inp) in ops.items():
+        for o in pick(["nodir/out", "sub/../out", "./sub/out", "@R/out", "sub", ""], 2):
+            add("%s, unset password, -o %r" % (name, o), mk(inp, o), pw=None, tag="cause-and-path", oracle=kvw_unchanged("the password variable is unset"))
+            add("%s, missing input, -o %r" % (name, o), mk("nofile", o), tree=SENT, pw=pw, tag="cause-and-path", oracle=kvw_unchanged("the input is missing"))
+    # ---- a directory as input: the decryptors leave everything; the encryptors leave their header (compared with the model byte for byte)
+    for name, (mk, pw, inp) in ops.items():
+        for i in pick([".", "..", "/", "sub", "sub/", "./sub/.", "@R"], 2):
+            dec = "decrypt" in name
+            for tr, st in ((base, "absent"), (SENT, "sentinel")):
+                add("%s, input %r is a directory, -o out (%s)" % (name, i, st), mk(i, "out"), tree=tr, pw=pw, tag="directory-input",
+                    oracle=kvw_unchanged("a decryptor reads before it writes") if dec else kvw_exit(1, "a directory cannot be read"))
+        add("%s, input is a directory, to stdout" % name, mk("sub", None), pw=pw, tag="directory-input", oracle=kvw_unchanged("nothing is written to a file"))
+        add("%s, input is a directory, -o cannot be created" % name, mk(".", "nodir/out"), pw=pw, tag="directory-input", oracle=kvw_unchanged("neither end works"))
+        add("%s, input is a directory, unset password" % name, mk("sub", "out"), tree=SENT, pw=None, tag="directory-input", oracle=kvw_unchanged("the password variable is unset"))
+    # ---- one file under two names: the program compares strings.  Observations (exit 0, the input is replaced), compared with the model.
+    al = [("pass-encrypt", "pt", "./pt"), ("pass-encrypt", "pt", "sub/../pt"), ("pass-encrypt", "./pt", "@R/pt"), ("pass-decrypt", "pct", "./pct"),
+          ("pass-decrypt", "sub/deep/../../pct", "pct"), ("decrypt", "ct", "sub/../ct"), ("decrypt", "@R/ct", "ct"), ("encrypt", "pt", "./pt"), ("encrypt", "pt", "//@R/pt")]
+    for name, i, o in pick(al, 5):
+        add("%s %r -o %r: one file, two names" % (name, i, o), ops[name][0](i, o), pw=ops[name][1], tag="alias")
+    for name, (mk, pw, inp) in pick(list(ops.items()), 2):
+        add("%s, the same string twice" % name, mk("./" + inp, "./" + inp), pw=pw, tag="alias", oracle=kvw_unchanged("input and output are the same string"))
+    add("password decrypt, alias, data after the last chunk", ops["pass-decrypt"][0]("px", "./px"), tree=dict(base, px=mw.pct + b"garbage"), pw=mw.passpw,
+        tag="alias", oracle=kvw_unchanged("the last chunk is not released"))
+    add("password decrypt, alias, wrong password", ops["pass-decrypt"][0]("pct", "./pct"), pw=b"not the password", tag="alias", oracle=kvw_unchanged("nothing is authenticated"))
+    add("encrypt, -o names the keyring by another spelling", ops["encrypt"][0]("pt", "./kr"), pw=A, tag="alias")
+    add("key generate, -o ./sub/../kr (an existing keyring by another spelling)", GEN + ["-o", "./sub/../kr"], pw=b"gen pw", stdin=b"newkey\n", tag="alias",
+        oracle=kvw_only("r/kr", "the key is appended"))
+    two = kvw_two_chunk_pct(mw, ctx.rbytes(40), ctx.rbytes(25))
+    if two is not None:
+        add("password decrypt, two small chunks, control", ops["pass-decrypt"][0]("p2", "out"), tree=dict(base, p2=two), pw=mw.passpw, tag="alias",
+            oracle=kvw_only("r/out", "a two-chunk file decrypts"))
+        add("password decrypt, two small chunks, -o ./p2: the first chunk's plaintext replaces the input, the second chunk is gone",
+            ops["pass-decrypt"][0]("p2", "./p2"), tree=dict(base, p2=two), pw=mw.passpw, tag="alias")
+    return cases
+
+
+def kvw_model_cases(ctx, mw, root, which):
+    """the tree cases, EXECUTED (model_cli_part then only compares them with the model)"""
+    cases = kvw_cases(ctx, mw, which)
+    kvw_exec_cases(cases, os.path.join(root, "kvw_" + which))
+    for c in cases:
+        ctx.distribution["tree:" + c.tags[0].split("model:tree-")[-1]] = ctx.distribution.get("tree:" + c.tags[0].split("model:tree-")[-1], 0) + 1
+        if c.tags[0].endswith("directory-input") and c.result["changed"]:
+            ctx.distribution["tree:directory-input-left-a-header"] = ctx.distribution.get("tree:directory-input-left-a-header", 0) + 1
+        if c.tags[0].endswith("alias") and c.result["consumed"] == 0 and c.result["changed"]:
+            ctx.distribution["tree:alias-exit-0-input-replaced"] = ctx.distribution.get("tree:alias-exit-0-input-replaced", 0) + 1
+    return cases
 
 
 class ModelWorld:
